@@ -174,7 +174,9 @@ def run_unit(unit, acc):
                 o = eval_legacy(doc)
                 acc.ev()
                 if o["load"] != "ok":
-                    acc.outcome("legacy:rejected")          # the property speaks about accepted documents only
+                    acc.violation("legacy-rejected", {"kind": "legacy", "doc": doc, "want": [date, ctype, respin]}, o,
+                                  "legacy %s composeinfo with id %r (date/respin only inside the id: %s) is rejected: %s"
+                                  % (version, cid, not with_fields, o["load"]))
                     continue
                 acc.outcome("legacy:loaded")
                 acc.nontriv(("legacy", version, cid, with_fields))
